@@ -4,6 +4,11 @@
 void harness(void) {
   HAVOC_BUFS;
   ND_SV(input);
+  /* call-site pre-condition of both parse_ipv4: the host ends in a number (checkers::is_ipv4, C10.is_ipv4.ends_in_number) and has been
+   * lower-cased (IDNA output / to_lower_ascii).  Without it e.g. "1.2.3.4.." -- which the ends-in-a-number checker sends to the domain
+   * branch -- would be accepted after the one trailing dot is dropped. */
+  __CPROVER_assume(ref_ends_in_number(input));
+  for (size_t i_ = 0; i_ < input.n; i_++) __CPROVER_assume(!SPEC_ASCII_UPPER_ALPHA(input.p[i_]));
   uint32_t addr = 0;
   _Bool ok = ref_ipv4(input, &addr);
   char ref[16]; size_t rn = ref_ipv4_serialize(addr, ref);
